@@ -290,6 +290,22 @@ func simC13v4(c *sim.Ctx) {
 		out, err := d.DefragIPv4WithTimestamp(ip, now)
 		c.Ev("ret", b2i(out != nil), b2i(err != nil))
 		in := insts[f.key]
+		{
+			// abstract state: per key (fragments held bucket, final seen, mixed), last outcome
+			var acc uint64 = 1469598103934665603
+			for _, x := range insts {
+				fin := false
+				for _, r := range x.recv {
+					fin = fin || !r.more
+				}
+				n := len(x.recv)
+				if n > 6 {
+					n = 6 + n/1000
+				}
+				acc = (acc ^ uint64(n) ^ uint64(b2i(fin))<<8 ^ uint64(b2i(x.mixed))<<9) * 1099511628211
+			}
+			c.State(acc ^ uint64(b2i(out != nil))<<1 ^ uint64(b2i(err != nil)))
+		}
 		if f.whole || (!f.more && f.off == 0) {
 			// by definition not a fragment (MF clear, offset 0)
 			if out != ip || err != nil {
